@@ -334,8 +334,8 @@ fn primitive_example(def: &TypeDefPrimitive, rng: &mut impl rand::Rng) -> TokenS
             quote!(#n)
         }
         TypeDefPrimitive::U16 => {
-            let _n = rng.gen::<u16>();
-            quote!(n)
+            let n = rng.gen::<u16>();
+            quote!(#n)
         }
         TypeDefPrimitive::U32 => {
             let n = rng.gen::<u32>();
